@@ -149,7 +149,7 @@ func finishCheck(prop, tierName string, tier, seed int, jobs []*job, tmp string,
 	var all []*WorkerResult
 	for _, j := range jobs {
 		if j.res.Fatal != "" {
-			fmt.Fprintf(os.Stderr, "ENGINE ERROR in %s: %s\n", j.spec.Entry, j.res.Fatal)
+			fmt.Fprintf(os.Stderr, "ENGINE ERROR in %s: %s\n%s\n", j.spec.Entry, j.res.Fatal, tail(j.log, 1500))
 			fatal++
 		}
 		if strings.Contains(j.log, "HOST PANIC") || strings.Contains(j.log, "panic:") {
